@@ -301,6 +301,24 @@ func (c *Check) Finish(verifDir string, cmdline string, seed int64) int {
 		"wall_s":      float64(int(time.Since(c.start).Seconds()*100)) / 100,
 		"violations":  len(fails),
 	}
+	if c.Assumptions == nil {
+		ev["assumptions"] = []string{"the analysed source is the working tree of /repo at the time of the run; standard-library contracts as named in coverage.trusted_base"}
+	}
+	if c.Trusted == nil {
+		cov["trusted_base"] = []string{"go/types, go/ssa (x/tools v0.29.0)", "kxcheck rules"}
+	}
+	if c.NotDecided == nil {
+		cov["not_decided"] = []string{}
+	}
+	if c.notes == nil {
+		cov["notes"] = []string{}
+	}
+	if knownOut == nil {
+		cov["known_findings"] = []string{}
+	}
+	if failOut == nil {
+		cov["undischarged"] = []Obligation{}
+	}
 	b, _ := json.MarshalIndent(ev, "", " ")
 	os.MkdirAll(filepath.Join(verifDir, "evidence"), 0o755)
 	if err := os.WriteFile(filepath.Join(verifDir, "evidence", c.Prop+".json"), append(b, '\n'), 0o644); err != nil {
